@@ -385,6 +385,10 @@ func Check(c *core.Ctx) int {
 	if c.Replay != "" {
 		return replay(c, say)
 	}
+	if msg := Preflight(); msg != "" {
+		say("INCONCLUSIVE: %s\n", msg)
+		return core.ExitInconclusive
+	}
 	known := core.LoadKnown().For(c.Prop)
 	if err := CheckSSZ(); err != nil {
 		say("NOTE: %v; signatures are judged against the specification\n", err)
@@ -453,17 +457,7 @@ func Check(c *core.Ctx) int {
 		r := firstObs.run
 		path := c.WriteReplay("gnoe2e-GNO1", ReplayFile{Prop: c.Prop, Stage: "gnoe2e", Seed: r.Seed, Run: r.No, Plan: firstObs.Plan, C: r.C, Beh: r.Beh,
 			Monitor: firstObs.Monitor, Pos: firstObs.Pos, Line: firstObs.Line})
-		isKnown := false
-		for _, k := range known {
-			if st, _ := k.Match["stage"].(string); st == "gnoe2e" {
-				if mon, _ := k.Match["monitor"].(string); mon == firstObs.Monitor {
-					os.Stdout = realStdout
-					core.PrintKnown(k)
-					isKnown = true
-				}
-			}
-		}
-		if !isKnown {
+		{
 			say("OBSERVATION stage=gnoe2e GNO-1 %s in %d replayed behaviours (replay=%s): a keyper that announces keys it already holds through the gnosis key share handler does not advance its own tx pointer; first in plan %s: %s\n",
 				firstObs.Monitor, nObs, path, firstObs.Plan.Name, behText(r.Beh, -1))
 		}
